@@ -216,6 +216,20 @@ func gen(r *Rand) Input {
 	seen := map[wn]bool{}
 	var cands []wn
 	add := func(w, n string) {
+		// names that differ from a wanted one only by white space, or that contain a line feed
+		// (which `.` does not match)
+		if r.Chance(1, 14) {
+			switch r.Intn(4) {
+			case 0:
+				n = " " + n
+			case 1:
+				n += " "
+			case 2:
+				n += "\n"
+			default:
+				n += "\nx"
+			}
+		}
 		if !seen[wn{w, n}] && w != "" {
 			seen[wn{w, n}] = true
 			cands = append(cands, wn{w, n})
